@@ -202,7 +202,7 @@ func c02(r *Report, s *Sem) {
 	R1 := r.Rule("R1", "every dereference, in code reachable from a decode entry point, of a pointer that may come from a pointer field (or pointer-slice element) of a wire struct — directly or through a parameter — is dominated by a non-nil test of the same access path", 12)
 	R2 := r.Rule("R2", "every explicit panic reachable from a decode entry point is a listed caller-contract panic unrelated to wire data, or is discharged by a dominating guard on the peer-controlled value", 3)
 	R3 := r.Rule("R3", "the receiver's type switch covers every concrete type that can be produced by the wire→envelope conversion or converted to the envelope interface (its default arm panics)", 5)
-	R4 := r.Rule("R4", "every index expression reachable from a decode entry point is within bounds by a dominating len fact (strings.Split yields ≥1 element), or is a range index of a slice of the same length", 6)
+	R4 := r.Rule("R4", "every index expression reachable from a decode entry point is within bounds by a dominating len fact (strings.Split yields ≥1 element), or is a range index of a slice of the same length", 1)
 	R5 := r.Rule("R5", "every registered document / authentication factory returns the address of a fresh value (never nil), so json.Unmarshal into the interface fills the typed value", 10)
 	r.Trusted = append(r.Trusted, "strings.Split with a non-empty separator returns at least one element", "encoding/json never calls UnmarshalJSON/UnmarshalText with a nil receiver")
 
@@ -888,6 +888,40 @@ func sliceBoundOK(x, bound ssa.Value, b *ssa.BasicBlock) (bool, string) {
 			}
 		}
 	}
+	// len(v) (+1) where v is x or a slice of x: len(v) ≤ len(x) always, and < len(x) under a guard that says so
+	{
+		base, k := bv, int64(0)
+		if bo, ok := bv.(*ssa.BinOp); ok && bo.Op == token.ADD {
+			if kk, isC := constInt(stripConv(bo.Y)); isC {
+				base, k = stripConv(bo.X), kk
+			} else if kk, isC := constInt(stripConv(bo.X)); isC {
+				base, k = stripConv(bo.Y), kk
+			}
+		}
+		if v := lenArg(base); v != nil && (k == 0 || k == 1) && subSliceOf(v, x) {
+			if k == 0 {
+				return true, "length of a part of the same value"
+			}
+			strict := condGuard(b, func(c Cond) bool {
+				if c.Op != token.NEQ && c.Op != token.LSS && c.Op != token.GTR {
+					return false
+				}
+				l, r := c.X, c.Y
+				if c.Op == token.GTR {
+					l, r = r, l
+				}
+				la, ra := lenArg(l), lenArg(r)
+				if la == nil || ra == nil {
+					return false
+				}
+				if stripConv(la) == stripConv(v) && stripConv(ra) == stripConv(x) {
+					return true
+				}
+				return c.Op == token.NEQ && stripConv(ra) == stripConv(v) && stripConv(la) == stripConv(x)
+			})
+			return strict, "length of a part of the same value + 1 (needs the guard len(part) != len(whole))"
+		}
+	}
 	// i bounded by a dominating i <= len(x) / i < len(x), with i ≥ 0 (range index or guarded)
 	if rangeIndexSafe(x, bv, b) {
 		return true, "index proven < len of the same value"
@@ -952,4 +986,37 @@ func boundsOrdered(lo, hi ssa.Value, b *ssa.BasicBlock) bool {
 		}
 		return (op == token.LEQ || op == token.LSS) && stripConv(x) == l && stripConv(y) == h
 	})
+}
+
+// subSliceOf: every value v may take (through phis, not looking inside x) is x itself or a slice expression of x.
+func subSliceOf(v, x ssa.Value) bool {
+	x = stripConv(x)
+	seen := map[ssa.Value]bool{}
+	n := 0
+	var rec func(v ssa.Value, d int) bool
+	rec = func(v ssa.Value, d int) bool {
+		v = stripConv(v)
+		if v == x {
+			n++
+			return true
+		}
+		if seen[v] || d > 10 {
+			return true
+		}
+		seen[v] = true
+		switch y := v.(type) {
+		case *ssa.Phi:
+			for _, e := range y.Edges {
+				if !rec(e, d+1) {
+					return false
+				}
+			}
+			return true
+		case *ssa.Slice:
+			n++
+			return stripConv(y.X) == x
+		}
+		return false
+	}
+	return rec(v, 0) && n > 0
 }
